@@ -82,6 +82,12 @@ func genSetup(r *kit.Rand, inFunc bool) []string {
 // genMutations produces statements that change shell state; used both for
 // the child side (S) and the parent side (T) of a concurrent construct.
 func genMutations(r *kit.Rand, n int, inFunc bool, quiet bool) []string {
+	return genMutationsT(r, n, inFunc, quiet, "")
+}
+
+// genMutationsT is genMutations with most composed statements focused on a
+// theme (see sysGen.theme).
+func genMutationsT(r *kit.Rand, n int, inFunc bool, quiet bool, theme string) []string {
 	pool := []string{
 		"s1=changed", "s1+=x", "s2=", "unset s1", "s1=(now an array)",
 		"a+=([1]=X)", "a+=([0]=Z w)", "a+=([-1]=neg)", "sp+=([2]=chg)", "sp+=([5]=chg [9]=far)", "m+=([k]=new)", "m+=([q]=1)", "read -a sp <<< 's1 s2'", "unset 'm[k2]'", "declare -A m", "export a", "readonly sp", "declare -x m",
@@ -106,7 +112,17 @@ func genMutations(r *kit.Rand, n int, inFunc bool, quiet bool) []string {
 		pool = append(pool, "l1=changed", "la+=(x)", "la[0]=y", "unset l1", "local l2=new", "la+=z", "unset 'la[0]'")
 	}
 	var out []string
+	sg := &sysGen{r: r.Fork("sys"), inFunc: inFunc, theme: theme}
 	for i := 0; i < n; i++ {
+		if r.Chance(1, 2) || (theme != "" && r.Chance(1, 2)) {
+			// composed from parts rather than picked from the list
+			s := sg.Stmt()
+			if quiet {
+				s = "{\n" + s + "\n} 2>/dev/null"
+			}
+			out = append(out, s)
+			continue
+		}
 		s := kit.Pick(r, pool)
 		if quiet {
 			s += " 2>/dev/null"
@@ -121,14 +137,14 @@ func genMutations(r *kit.Rand, n int, inFunc bool, quiet bool) []string {
 
 // dumpLines prints every piece of shell state the C27 statement names.
 func dumpLines(inFunc bool) []string {
-	names := "s1 s2 s3 e1 r1 enew gnew gv n opt a sp m OPTIND IFS PWD OLDPWD nref aref select_var x i"
+	names := "s1 s2 s3 e1 r1 enew gnew gv n opt a sp m OPTIND IFS PWD OLDPWD nref aref select_var x i u1 x2 REPLY OPTARG HOME rest"
 	if inFunc {
 		names += " l1 l2 la"
 	}
 	return []string{
 		"echo ===DUMP===",
 		"declare -p " + names + " 2>&1",
-		"declare -f f1 2>&1; declare -f f2 2>&1; declare -f fnew 2>&1",
+		"declare -f f1 2>&1; declare -f f2 2>&1; declare -f fnew 2>&1; declare -f f3 fw fw2 fl 2>&1",
 		"alias 2>&1",
 		"shopt 2>&1",
 		"set +o 2>&1",
